@@ -294,7 +294,212 @@ def plan_C03(tier, seed):
     }
 
 
+ALL22 = ["SMA", "WMA", "SD", "MAD", "MIN", "MAX", "EMA", "TR", "ATR", "MACD", "PPO", "RSI", "FAST_STOCH", "SLOW_STOCH",
+         "ROC", "ER", "BB", "KC", "CE", "CCI", "MFI", "OBV"]
+UNBOUNDED = ("EMA", "TR", "ATR", "MACD", "PPO", "RSI", "SLOW_STOCH", "KC", "CE", "OBV")
+TOKS4 = {"NaN", "PInf", "NInf", "FMax"}
+
+
+def kcfg(kind, n, rng=None, alt=0):
+    """a configuration of `kind` with main period n (other periods / multiplier varied with alt)"""
+    n2 = [n, 1, 3, 2][alt % 4] if kind in ("MACD", "PPO") else [2, 1, 3, n][alt % 4]
+    n3 = [2, 1, n, 3][alt % 4]
+    return cfg(kind, n, n2=n2, n3=n3, m=MULTS[alt % 5])
+
+
+def to_ops(kind, i, xs, rng=None, style=0):
+    """feed lattice values xs to instance i: scalars, or bars built around them for bar-only kinds"""
+    ops = []
+    for k, x in enumerate(xs):
+        if kind in BAR_ONLY or style == 1:
+            d = 1 if x > 1 else 0
+            ops.append(b_op(i, bar(x + 1, x - d, x if k % 2 else x + 1, o=x, v=(k + x) % 3)))
+        else:
+            ops.append(s_op(i, x))
+    return ops
+
+
+def continuations(kind, n, i=1):
+    """four continuations of n+2 inputs from values that do not occur in the exploration alphabet"""
+    L = n + 2
+    pats = [[4 + k for k in range(L)], [9 + L - k for k in range(L)], [4 if k % 2 else 11 for k in range(L)], [6] * L]
+    return [to_ops(kind, i, p) for p in pats]
+
+
+def free_alpha(kind, with_big=False):
+    """(salpha, balpha) for free exploration of a kind"""
+    if kind in BAR_ONLY:
+        return set(), (OSC_BARS if kind != "CE" else hlc_bars())
+    sa = {1, 2, 3}
+    if with_big:
+        sa = sa | {BIG}
+    return sa, []
+
+
+def plan_C04(tier, seed):
+    q = tier == "quick"
+    rng = random.Random(seed * 32452843 + 4)
+    jobs = []
+    inv = ("Refines", "Safe")
+    for kind in ALL22:
+        for n in ((1, 2, 3) if q else (1, 2, 3, 4)):
+            if kind in ("TR", "OBV") and n > 1:
+                continue
+            c = kcfg(kind, n, alt=n)
+            sa, ba = free_alpha(kind, with_big=(n <= 2))
+            if kind in BAR_ONLY and n >= 3:
+                ba = ba[:5]
+            conts = [[{"op": "reset", "i": 1}] + ct for ct in continuations(kind, n)]
+            unb = kind in UNBOUNDED
+            depth = (n + 3 if q else n + 4) if unb else 10**6
+            if kind in BAR_ONLY and n >= 2:
+                depth = min(depth, n + 4 + (0 if q else 1))
+            jobs.append(Job("%s_n%d" % (kind, n), {1: c}, salpha=sa, balpha=ba, toks=(TOKS4 if n <= 2 else {"NaN"}), resets={1},
+                            conts=conts, maxdepth=depth + n + 3, noovf=False, invariants=inv,
+                            extra_defs="FreeDepth == FreeDepthOf(%d)" % depth, extra_cfg="CONSTRAINT FreeDepth"))
+    # deep random histories: thousands of ops with non-finite values, spikes and repeated resets
+    for kind in ALL22:
+        for rep in range(1 if q else 3):
+            n = rng.choice([1, 2, 3, 5, 8, 14])
+            c = kcfg(kind, n, alt=rng.randint(0, 4))
+            ops = [new_op(1)]
+            total = 2500 if q else 9000
+            while len(ops) < total:
+                seg = rng.randint(1, 3 * n + 12)
+                xs = stream_patterns(rng, seg, 1, 12, lively=True)
+                if rng.random() < 0.3:
+                    xs[rng.randrange(len(xs))] = BIG
+                o = to_ops(kind, 1, xs, style=rng.randint(0, 1) if kind not in BAR_ONLY else 0)
+                if rng.random() < 0.35:
+                    o.insert(rng.randrange(len(o) + 1), {"op": "tok", "i": 1, "x": rng.choice(["NaN", "PInf", "NInf", "FMax", "NFMax", "Sub", "NZero"])})
+                ops += o + [{"op": "reset", "i": 1}]
+                if rng.random() < 0.15:
+                    ops.append({"op": "reset", "i": 1})
+            jobs.append(scripted("%s_deep%d_n%d" % (kind, rep, n), {1: c}, ops, noovf=False, invariants=inv))
+    return {
+        "jobs": jobs, "parallel": 12,
+        "rule": "for each of the 22 kinds and periods 1..3 (1..4 thorough): free TaSystem exploration over {1,2,3} (+ a 10^6 spike, + NaN/+-inf/f64::MAX "
+                "tokens, + reset) reaches every ring/cursor/counter state of the implementation-shaped model, including tainted ones; from EVERY such state "
+                "reset() followed by four fixed continuations of n+2 fresh values is explored; every transition is replayed: the real instance after "
+                "reset() is compared step by step with a freshly constructed real instance (1e-12 relative) and with the spec's exact value; plus seeded deep "
+                "histories of thousands of ops",
+        "assumptions": COMMON_ASSUME + ["'indistinguishable from fresh' is observed through next() outputs, period(), multiplier() and Display only"],
+    }
+
+
+def plan_C05(tier, seed):
+    q = tier == "quick"
+    rng = random.Random(seed * 49979687 + 5)
+    jobs = []
+    inv = ("Refines", "Safe")
+    for kind in ALL22:
+        n = rng.choice([2, 3])
+        a, b = kcfg(kind, n, alt=1), kcfg(kind, n + rng.choice([1, 3, 5]), alt=2)
+        if kind in ("TR", "OBV"):
+            b = a
+        sa, ba = free_alpha(kind)
+        sa = {1, 3} if sa else sa
+        ba = ba[:2] if ba else ba
+        # every merge of short op sequences on the original, a clone taken at any point, an unrelated instance and a late fresh one
+        jobs.append(Job("%s_merge" % kind, {1: a, 2: a, 3: b, 4: a}, initial={1, 3}, salpha=sa, balpha=ba, clones={(1, 2)}, news={4},
+                        maxdepth=(6 if q else 7), view=False, emit="EmitLeaf", noovf=False, invariants=inv))
+        # clone taken at every reachable state of the original, then interleaved continuations
+        for n in ((1, 2, 3) if q else (1, 2, 3, 4)):
+            if kind in ("TR", "OBV") and n > 1:
+                continue
+            a = kcfg(kind, n, alt=3)
+            sa, ba = free_alpha(kind)
+            conts = []
+            for ct in continuations(kind, n):
+                c2 = [{"op": "clone", "i": 1, "j": 2}]
+                other = continuations(kind, n, i=3)[0]
+                for k, o in enumerate(ct):
+                    c2 += [o, dict(other[k], i=3), dict(o, i=2)] if k % 2 == 0 else [dict(o, i=2), o]
+                conts.append(c2)
+            unb = kind in UNBOUNDED
+            depth = (n + 3) if unb or kind in BAR_ONLY else 10**6
+            jobs.append(Job("%s_cl_n%d" % (kind, n), {1: a, 2: a, 3: b}, initial={1, 3}, salpha=sa, balpha=(ba[:5] if ba and n >= 3 else ba), conts=conts,
+                            maxdepth=depth + 3 * n + 12, noovf=False, invariants=inv, extra_defs="FreeDepth == FreeDepthOf(%d)" % (depth + 1),
+                            extra_cfg="CONSTRAINT FreeDepth", threads=16, free_ids={1}))
+    return {
+        "jobs": jobs, "parallel": 12,
+        "rule": "per kind: (a) every interleaving (depth-bounded, no state merging) of feeds to an original, its clone taken at any point, an unrelated "
+                "instance of another period and a late fresh instance; (b) a clone taken at every reachable state of the closed model followed by "
+                "interleaved continuations; replayed on 16 threads; any two real instances with the same configuration and literal history must "
+                "return bit-identical outputs, within a behaviour, across behaviours and across threads, and equal the spec's value",
+        "assumptions": COMMON_ASSUME + ["real thread schedules are observed, not controlled; instances are never shared between threads"],
+    }
+
+
+def plan_C06(tier, seed):
+    q = tier == "quick"
+    rng = random.Random(seed * 67867967 + 6)
+    jobs = []
+    inv = ("Refines", "Safe")
+    for kind in ALL22:
+        for n in ((1, 2, 3) if q else (1, 2, 3, 4)):
+            if kind in ("TR", "OBV") and n > 1:
+                continue
+            a = kcfg(kind, n, alt=n + 1)
+            sa, ba = free_alpha(kind, with_big=(n == 1))
+            if kind in BAR_ONLY and n >= 3:
+                ba = ba[:5]
+            conts = []
+            for k, ct in enumerate(continuations(kind, n)):
+                head = [{"op": "save", "i": 1, "s": 1}, {"op": "restore", "s": 1, "j": 2}]
+                if k == 1:   # just reset
+                    head = [{"op": "reset", "i": 1}] + head
+                if k == 2:   # repeated round trip
+                    head = head + [{"op": "save", "i": 2, "s": 2}, {"op": "restore", "s": 2, "j": 3}]
+                body = []
+                for o in ct:
+                    body += [o, dict(o, i=2)] + ([dict(o, i=3)] if k == 2 else [])
+                conts.append(head + body)
+            unb = kind in UNBOUNDED
+            depth = (n + 3) if unb or (kind in BAR_ONLY and n >= 2) else 10**6
+            jobs.append(Job("%s_n%d" % (kind, n), {1: a, 2: a, 3: a}, initial={1}, slots={1, 2}, salpha=sa, balpha=ba, resets={1}, conts=conts,
+                            maxdepth=depth + 3 * n + 14, noovf=False, invariants=inv, extra_defs="FreeDepth == FreeDepthOf(%d)" % depth,
+                            extra_cfg="CONSTRAINT FreeDepth", free_ids={1}))
+    # random checkpoint positions in long histories; both copies continue for hundreds of steps
+    for kind in ALL22:
+        for rep in range(1 if q else 3):
+            n = rng.choice([1, 2, 3, 5, 9, 14, 30])
+            a = kcfg(kind, n, alt=rng.randint(0, 4))
+            ops = [new_op(1)]
+            live = [1]
+            nxt, slot = 2, 1
+            total = 2600 if q else 9000
+            xs = stream_patterns(rng, total, 1, 12, lively=True)
+            k = 0
+            cps = sorted(rng.sample(range(5, total - 600), 3))
+            for x in xs:
+                if rng.random() < 0.004:
+                    x = BIG
+                for i in live:
+                    ops += to_ops(kind, i, [x])
+                k += 1
+                if cps and k == cps[0]:
+                    cps.pop(0)
+                    src = rng.choice(live)
+                    ops += [{"op": "save", "i": src, "s": slot}, {"op": "restore", "s": slot, "j": nxt}]
+                    live.append(nxt)
+                    nxt += 1
+            ids = {i: a for i in range(1, nxt)}
+            jobs.append(scripted("%s_long%d_n%d" % (kind, rep, n), ids, ops, slots={1}, noovf=False, invariants=inv))
+    return {
+        "jobs": jobs, "parallel": 12,
+        "rule": "for each of the 22 kinds and periods 1..3 (1..4 thorough): from EVERY reachable state of the closed model (fresh, warming, full, wrapped, "
+                "just reset) the instance is serialized with bincode and deserialized (once, or twice in a row), and original and copies are fed four "
+                "fixed continuations of n+2 values; plus seeded long histories with random checkpoints where all copies continue for hundreds of steps; "
+                "copies must agree within 1e-12 relative, keep Display/period/multiplier, stay under the size bound, and equal the spec's value",
+        "assumptions": COMMON_ASSUME + ["bincode 1.3 is the serialization format exercised (JSON cannot carry the infinities of a fresh Minimum/Maximum)"],
+    }
+
+
 PLANS = {
+    "C04": plan_C04,
+    "C05": plan_C05,
+    "C06": plan_C06,
     "C01": plan_C01,
     "C03": plan_C03,
     "C02": plan_C02,
